@@ -48,10 +48,12 @@ Theorem C20_crm_featherstone : forall v m : V6 R,
 Proof. gen_ring. Qed.
 Print Assumptions C20_crm_featherstone.
 
-(* the `@` operator and an acceleration as LEFT operand run the same kernel *)
+(* the `@` operator, an acceleration as LEFT operand and an acceleration as RIGHT operand (accepted since /repo 66a8f3b)
+   run the same kernel *)
 Theorem C20_crm_variants : forall v m : V6 R,
-  tr_crm_op Rops v m = tr_crm Rops v m /\ tr_crm_acc Rops v m = tr_crm Rops v m.
-Proof. intros; split; gen_ring. Qed.
+  tr_crm_op Rops v m = tr_crm Rops v m /\ tr_crm_acc Rops v m = tr_crm Rops v m /\
+  tr_crm_accop Rops v m = tr_crm Rops v m /\ tr_crm_op_accop Rops v m = tr_crm Rops v m.
+Proof. intros; repeat split; gen_ring. Qed.
 Print Assumptions C20_crm_variants.
 
 (* v x* f  =  -[skew(w) skew(v); 0 skew(w)]^T f, for both force classes *)
